@@ -120,7 +120,7 @@ VARIANTS_FINE = ["ok", "radius-skips"]
 def design(ctx):
     """TLC on the design: the implementation model satisfies the statement; the broken variants do not."""
     w, _ = make_world(ctx, "design", W_N52, rows=ctx.pick(1, 2), cols=2, ext=ctx.pick(1, 2), mov=2, near=1, far=0,
-                      extraq=1, seed=ctx.seed)
+                      extraq=ctx.pick(0, 1), seed=ctx.seed)
     w["pats"] = w["pats"][:2]
     dz = dict(k="{0, 1, 3}", groups=2, pages="{1, 4}")
     out = {}
@@ -303,6 +303,7 @@ def run_leg(ctx, acc, name, w, wpath, source, par=PAR, nq=1, nb=12, every=False,
     if rc != 0:
         raise common.Infra("nearby-run %s failed: %s" % (name, err[-2000:]))
     st = js["stats"]
+    parts = max(1, min(parts, st["queries"] // 4000))      # a TLC launch costs seconds: small traces are not split
     nq_j, rej, lines = judge_split(ctx, name, w, trace, parts)
     if nq_j != st["queries"]:
         raise common.Infra("leg %s: %d queries recorded, %d judged by TLC" % (name, st["queries"], nq_j))
@@ -350,7 +351,7 @@ def report_rejection(ctx, leg, w, args, lines, x):
         evs += [e for e in r["ev"][:last - (1 if j == li else 0)] if e["t"] != "q"]
     evs.append(ev)
     text = describe(w, ev, x["why"]) + " [leg %s, line %s]" % (leg, rec["id"])
-    common.report(ctx, "c13-%s-%s" % (leg, rec["id"].replace("#", "_")), text,
+    common.report(ctx, "c13-%s-%s-e%d" % (leg, rec["id"].replace("#", "_"), x["ev"]), text,
                   {"kind": "nearby-events", "world_params": w["params"], "world_max_known_mm": w["max_known_mm"],
                    "events": evs, "why": x["why"], "run_args": [a for a in args[1:] if not a.startswith("/")]})
 
@@ -451,18 +452,36 @@ def run(ctx):
     first = None
     order = COVER[(ctx.seed - 1) % len(COVER):] + COVER[:(ctx.seed - 1) % len(COVER)]
     for n, g in enumerate(order[:ctx.pick(1, len(COVER))]):
-        big = (not q) and n < 2
+        big = (not q) and n < 1          # one cover with three movers (43 560 histories), the others with two
         w, wp = make_world(ctx, "cover_" + g, GRIDS[g], rows=2, cols=2, ext=3, mov=3 if big else 2, near=ctx.pick(30, 40),
                            far=ctx.pick(1500, 6000), extraq=3, nring=12, seed=ctx.seed)
         acc.worlds["cover_" + g] = world_info(w)
         r, beh, k = gen_bfs(ctx, "gen_" + g, w)
         acc.states += r["distinct"]
         acc.trans += k
-        rej, lines = run_leg(ctx, acc, "cover_" + g, w, wp, ("in", beh), nq=1, nb=ctx.pick(12, 14), churn=ctx.pick(200, 500),
-                             spin=(n == 1))
+        # big covers are executed and judged in pieces (memory of the trace, of TLC's copy of it)
+        hs = [l for l in open(beh).read().split("\n") if l]
         os.remove(beh)
-        if first is None:
-            first = (w, lines, {(x["line"], x["ev"]) for x in rej})
+        piece = 6000
+        for c in range(0, len(hs), piece):
+            part = os.path.join(ctx.scratch, "hist_%s_%d.ndjson" % (g, c // piece))
+            with open(part, "w") as f:
+                f.write("\n".join(hs[c:c + piece]) + "\n")
+            rej, lines = run_leg(ctx, acc, "cover_%s%s" % (g, "" if len(hs) <= piece else "_%d" % (c // piece)), w, wp,
+                                 ("in", part), nq=1 if (q or big) else 2, nb=ctx.pick(9, 14), churn=ctx.pick(200, 500), spin=(n == 1))
+            os.remove(part)
+            if first is None:
+                first = (w, lines, {(x["line"], x["ev"]) for x in rej})
+            del lines
+    # the same cover on a collection that holds nothing else (empty index, single-leaf tree, replies of 0..3 objects)
+    g = order[ctx.pick(0, 2)]
+    w, wp = make_world(ctx, "pure_" + g, GRIDS[g], rows=2, cols=2, ext=3, mov=2, near=0, far=0, extraq=3, seed=ctx.seed + 7)
+    acc.worlds["pure_" + g] = world_info(w)
+    r, beh, k = gen_bfs(ctx, "genpure_" + g, w)
+    acc.states += r["distinct"]
+    acc.trans += k
+    run_leg(ctx, acc, "pure_" + g, w, wp, ("in", beh), nq=ctx.pick(1, 2), nb=ctx.pick(6, 14))
+    os.remove(beh)
     # 3. random long histories from TLC on a 5x5 grid with 5 movers
     g = order[1]
     w, wp = make_world(ctx, "sim_" + g, GRIDS[g], rows=5, cols=5, ext=ctx.pick(12, 20), mov=5, near=ctx.pick(40, 60),
